@@ -52,7 +52,7 @@ func HarnessCacheTrouble() {
 		vAssert(c.answered && c.status == 200 && string(c.body) == string(body), "c09."+name+".good-answer-became-error")
 	case 3, 4:
 		// (a request without conditional headers - the bypass - is answered with the full 200)
-		e.o.script = []originResp{{status: 200, header: h, body: body}, {status: 304, header: hdr()}, {status: 200, header: h, body: body}}
+		e.o.script = []originResp{{status: 200, header: h, body: body}, {status: 304, header: hdr("Etag", "\"a\"")}, {status: 200, header: h, body: body}}
 		req1 := newReq("GET", "o.test", "/t", "", nil)
 		key := cache.MakeFromRequest(req1)
 		e.plain(req1)
@@ -77,6 +77,19 @@ func HarnessCacheTrouble() {
 		c := e.plain(newReq("GET", "o.test", "/t", "", nil))
 		vAssert(c.answered && c.status == 200, "c09."+name+".good-answer-became-error")
 		vAssert(string(c.body) == "OK" || string(c.body) == "NEW", "c09."+name+".body-of-no-version")
+		// C01: the validators delivered (and kept) with a body are the ones the origin sent with
+		// THAT body - a 304 that arrives late does not stamp the old validators on the new entry
+		if string(c.body) == "NEW" {
+			vAssert(one(c.header, "Etag") != "\"a\"", "c01.validators-of-another-version-delivered")
+		}
+		if string(c.body) == "OK" {
+			vAssert(one(c.header, "Etag") != "\"n\"", "c01.validators-of-another-version-delivered")
+		}
+		if m2, _, err2 := e.p.cache.GetMetadata(key); err2 == nil && scenario == 4 {
+			if m2.Size == 3 { // the replacement ("NEW") is what is stored
+				vAssert(m2.Object.ETag == "\"n\"", "c01.stored-validators-of-another-version")
+			}
+		}
 	}
 }
 
